@@ -36,7 +36,9 @@ def in_S1(case):
         return p >= 3 and o.get('omega', p * 2 // 3) <= p * 2 // 3
     p = o.get('precision', 18)
     g = o.get('guard', p // 2)
-    return p >= 2 and g >= p // 2 and o.get('omega', p // 2) <= p // 2
+    # p >= 3 as for fixed: guarded ignores round='up', and in the geometric-decay family (more seats than supported
+    # candidates) kf ~ quota ~ surplus/seats > omega/seats, so kf*quota ~ 10^-p/seats^2 must exceed one unit 10^-(p+g)
+    return p >= 3 and g >= p // 2 and o.get('omega', p // 2) <= p // 2
 
 
 @st.composite
